@@ -33,6 +33,7 @@ EXPR_SLOTS = [
     ("typed-array-elem", "[]int64{1, %s}"), ("typed-map-value", "map[string]int64{\"a\": %s}"), ("typed-map-key", "map[string]int64{%s: 1}"),
     ("slice-end-only", "x[:%s]"), ("slice-begin-only", "x[%s:]"), ("slice3-no-begin-cap", "x[:1:%s]"), ("slice3-no-begin-end", "x[:%s:2]"),
     ("slice-base-open", "(%s)[1:]"), ("slice-base-open2", "(%s)[:1]"), ("make-chan-size", "make(chan int64, %s)"), ("elseif-cond2", "if x { } else if y { } else if %s { }"),
+    ("switch-default-only-expr", "switch x { default: %s }"), ("switch-subject-default-only", "switch %s { default: y }"),
     ("defer-arg2", "defer f(1, %s)"), ("go-arg2", "go f(1, %s)"), ("anon-call-arg2", "x.y(1, %s)"), ("delete-item-key", "delete(%s, 1)"), ("let-map-item-base", "v, ok = (%s)[1]"),
 ]
 
@@ -41,6 +42,8 @@ STMT_FILLERS = [
     ("if-else", "if x { y } else if z { w } else { v }"), ("try", "try { x } catch e { y } finally { z }"), ("try-novar", "try { x } catch { y }"),
     ("loop", "for { break }"), ("while", "for x { continue }"), ("cfor", "for i = 0; i < 2; i++ { x }"), ("forin", "for v in x { y }"), ("forin2", "for k, v in x { y }"),
     ("return", "return 1"), ("return0", "return"), ("throw", "throw x"), ("module", "module m { a = 1 }"), ("switch", "switch x { case 1: y  case 2, 3: z  default: w }"),
+    ("switch-default-only", "switch x { default: w }"), ("switch-empty", "switch x { }"), ("switch-case-only", "switch x { case 1: y }"), ("if-empty", "if x { }"), ("try-empty", "try { } catch { }"),
+    ("func-empty", "func g0() { }"), ("module-empty", "module m0 { }"), ("forin-empty", "for v in x { }"),
     ("go", "go f(1)"), ("go-anon", "go func() { x }()"), ("defer", "defer f(1)"), ("defer-anon", "defer func() { x }()"), ("delete", "delete(m, 1)"), ("delete1", "delete(\"a\")"),
     ("close", "close(c)"), ("chan-stmt", "v = <-c"), ("chan-stmt-ok", "v, ok = <-c"), ("break", "for { break }"), ("func-decl", "func g(a, b...) { return a }"),
 ]
@@ -52,6 +55,7 @@ STMT_SLOTS = [
     ("switch-case", "switch c {\ncase 1:\n%s\n}"), ("switch-default", "switch c {\ncase 1:\nx\ndefault:\n%s\n}"), ("module-body", "module mm {\n%s\n}"),
     ("func-body", "func ff() {\n%s\n}"), ("anon-func-body", "h = func() {\n%s\n}"), ("cfor-init", None),
     ("elseif2-then", "if c { } else if d { } else if e {\n%s\n}"), ("else-after-elseif", "if c { } else if d { } else {\n%s\n}"), ("switch-2nd-case", "switch c {\ncase 1:\nx\ncase 2:\n%s\n}"),
+    ("switch-only-default", "switch c {\ndefault:\n%s\n}"), ("switch-default-first", "switch c {\ndefault:\n%s\ncase 1:\nx\n}"),
     ("second-stmt", "q = 0\nq = 1\n%s"), ("try-body-nocatchvar", "try {\n%s\n} catch { }"), ("finally-only-after", "try { x } catch e { y } finally {\nq\n%s\n}"),
 ]
 
